@@ -959,7 +959,12 @@ type _structAssemblerRepr _structAssembler
 func (w *_structAssemblerRepr) AssembleKey() datamodel.NodeAssembler {
 	switch stg := reprStrategy(w.schemaType).(type) {
 	case schema.StructRepresentation_Map:
-		return (*_structAssembler)(w).AssembleKey()
+		asm := (*_structAssembler)(w).AssembleKey()
+		w.curKey.finish = func() error {
+			// (the key arrives in its representation form; fields are tracked by their own name)
+			return (*_structAssembler)(w).checkKeyNotRepeated(inboundMappedKey(w.schemaType, stg, w.curKey.val.String()))
+		}
+		return asm
 	case schema.StructRepresentation_Stringjoin,
 		schema.StructRepresentation_StringPairs:
 		// TODO: perhaps the ErrorWrongKind type should also be extended to explicitly describe whether the method was applied on bare DM, type-level, or repr-level.
@@ -1074,13 +1079,14 @@ func (w *_listStructAssemblerRepr) AssembleValue() datamodel.NodeAssembler {
 			}}
 		}
 		field := fields[w.nextIndex]
-		w.doneFields[w.nextIndex] = true
+		idx := w.nextIndex
 		w.nextIndex++
 
 		entryAsm, err := (*_structAssembler)(w).AssembleEntry(field.Name())
 		if err != nil {
 			return _errorAssembler{err}
 		}
+		w.doneFields[idx] = true // (after AssembleEntry, which refuses fields that are already done)
 		entryAsm = assemblerRepr(entryAsm)
 		return entryAsm
 	case schema.StructRepresentation_ListPairs:
